@@ -1,9 +1,10 @@
 """Contracts (pre + executable reference spec) for the datastore: the abstract view of a block is
 the partial map  cells: address -> value  with domain [address, address+len(values)) for a
 sequential block and the key set for a sparse block (DESIGN C04/C18)."""
-from pyvc.unit import FunctionContract
+from pyvc.unit import FunctionContract, LoopAnn
 from pyvc import lang as L
 
+LAYOUTS = ('seq', 'sparse')
 SEQ = 'pymodbus.datastore.store.ModbusSequentialDataBlock'
 SPARSE = 'pymodbus.datastore.store.ModbusSparseDataBlock'
 SLAVE = 'pymodbus.datastore.context.ModbusSlaveContext'
@@ -72,7 +73,7 @@ class SeqSetValues(FunctionContract):
 
 
 def sparse_block(E, name, elem='int'):
-    return E.obj(SPARSE, values=E.intmap(name + '_vals', elem), address=E.int(name + '_addr'), default_value=(False if elem == 'bool' else 0))
+    return E.obj(SPARSE, values=(E.intmap(name + '_vals', elem) if elem == 'bool' else E.intmap(name + '_vals', elem, 0, 65536)), address=E.int(name + '_addr'), default_value=(False if elem == 'bool' else 0))
 
 
 def sparse_valid(blk, address, count):
@@ -90,11 +91,12 @@ class SparseValidate(FunctionContract):
         return sparse_valid(blk, address, count)
 
 
-def slave_context(E, name='ctx', shared=False, zero_mode=None):
-    """a slave context over four sequential blocks (bit tables hold bools); zero_mode symbolic unless given"""
+def slave_context(E, name='ctx', shared=False, zero_mode=None, layout='seq'):
+    """a slave context over four blocks (bit tables hold bools), all sequential or all sparse; zero_mode symbolic unless given"""
     blocks = {}
     for t in 'dcih':
-        blocks[t] = seq_block(E, '%s_%s' % (name, t), 'bool' if t in BIT_TABLES else 'int')
+        mkblk = seq_block if layout == 'seq' else sparse_block
+        blocks[t] = mkblk(E, '%s_%s' % (name, t), 'bool' if t in BIT_TABLES else 'int')
     zm = E.bool(name + '_zero_mode') if zero_mode is None else zero_mode
     return E.obj(SLAVE, store=blocks, zero_mode=zm)
 
@@ -115,6 +117,30 @@ class SparseGetValues(FunctionContract):
 
     def spec(self, E, blk, address, count=1):
         return L.seq(count, lambda k: L.map_get(blk.values, address + k))
+
+
+def _sparse_written(v, j):
+    exp = v.old.snapshot()
+    L.map_set_range(exp, v.address, L.slice_(v.values, 0, j))
+    return v.E.same_state(v.self.values, exp)
+
+
+class SparseSetValues(FunctionContract):
+    """list form of setValues (the form every request handler uses): cells address.. := values, every other cell and the key set otherwise unchanged"""
+    qual = SPARSE + '.setValues'
+    props = ('C18', 'C04', 'C05')
+    loops = {1: LoopAnn('cells', _sparse_written, entry=lambda v: {'old': v.self.values.snapshot()})}
+
+    def make(self, E):
+        return [sparse_block(E, 's'), E.int('address'), E.ints('new', 0, 65536, minlen=1)], {}
+
+    def pre(self, E, blk, address, values):
+        n = L.length(values)
+        return L.And(n >= 1, sparse_valid(blk, address, n))
+
+    def spec(self, E, blk, address, values):
+        L.map_set_range(blk.values, address, values)
+        return None
 
 
 # ----------------------------------------------------------------------------- generic block view (dispatch on class)
@@ -144,10 +170,10 @@ class SlaveValidate(FunctionContract):
     """ModbusSlaveContext.validate: table chosen by function code, documented +1 offset unless zero_mode"""
     qual = SLAVE + '.validate'
     props = ('C18', 'C04', 'C05')
-    callee_contracts = (SeqValidate(),)
+    callee_contracts = (SeqValidate(), SparseValidate())
 
     def make(self, E):
-        return [slave_context(E), E.choice('fx', sorted(TABLE_OF_FC)), E.int('address', 0, 65536), E.int('count', 0, 65536)], {}
+        return [slave_context(E, layout=E.choice('layout', LAYOUTS)), E.choice('fx', sorted(TABLE_OF_FC)), E.int('address', 0, 65536), E.int('count', 0, 65536)], {}
 
     def spec(self, E, ctx, fx, address, count=1):
         return block_valid(E, table(ctx, fx), address + offset(ctx), count)
@@ -156,10 +182,10 @@ class SlaveValidate(FunctionContract):
 class SlaveGetValues(FunctionContract):
     qual = SLAVE + '.getValues'
     props = ('C18', 'C04', 'C05')
-    callee_contracts = (SeqGetValues(),)
+    callee_contracts = (SeqGetValues(), SparseGetValues())
 
     def make(self, E):
-        return [slave_context(E), E.choice('fx', sorted(TABLE_OF_FC)), E.int('address', 0, 65536), E.int('count', 0, 65536)], {}
+        return [slave_context(E, layout=E.choice('layout', LAYOUTS)), E.choice('fx', sorted(TABLE_OF_FC)), E.int('address', 0, 65536), E.int('count', 0, 65536)], {}
 
     def pre(self, E, ctx, fx, address, count=1):
         return L.And(count >= 1, block_valid(E, table(ctx, fx), address + offset(ctx), count))
@@ -172,22 +198,25 @@ class SlaveGetValues(FunctionContract):
 class SlaveSetValues(FunctionContract):
     qual = SLAVE + '.setValues'
     props = ('C18', 'C04', 'C05')
-    callee_contracts = (SeqSetValues(),)
+    callee_contracts = (SeqSetValues(), SparseSetValues())
 
     def make(self, E):
         fx = E.choice('fx', sorted(TABLE_OF_FC))
         vals = E.bools('new', minlen=1) if TABLE_OF_FC[fx] in BIT_TABLES else E.ints('new', 0, 65536, minlen=1)
-        return [slave_context(E), fx, E.int('address', 0, 65536), vals], {}
+        return [slave_context(E, layout=E.choice('layout', LAYOUTS)), fx, E.int('address', 0, 65536), vals], {}
 
     def pre(self, E, ctx, fx, address, values):
         return L.And(L.length(values) >= 1, block_valid(E, table(ctx, fx), address + offset(ctx), L.length(values)))
 
     def spec(self, E, ctx, fx, address, values):
         blk = table(ctx, fx)
+        if E.classname(blk) == 'ModbusSparseDataBlock':
+            L.map_set_range(blk.values, address + offset(ctx), values)
+            return None
         old, n, s = blk.values, L.length(values), address + offset(ctx) - blk.address
         blk.values = L.seq(L.length(old), lambda k: L.ite(L.And(k >= s, k < s + n), L.at(values, k - s), L.at(old, k)))
         return None
 
 
-STORE_CONTRACTS = (SeqValidate(), SeqGetValues(), SeqSetValues(), SparseValidate(), SparseGetValues())
+STORE_CONTRACTS = (SeqValidate(), SeqGetValues(), SeqSetValues(), SparseValidate(), SparseGetValues(), SparseSetValues())
 SLAVE_CONTRACTS = (SlaveValidate(), SlaveGetValues(), SlaveSetValues())
